@@ -1,5 +1,6 @@
 """C17 - annotation aggregation equals counting (must-write / dominance)."""
 import ast
+from ..astutil import inline_temporaries as _it
 
 from ..astutil import FuncTree, dominates, inline_temporaries
 from ..common import norm_stmt, site_id
@@ -196,7 +197,7 @@ def run(p, report, tier):
                        "same weights counts differently")
     # ---------------- definite assignment
     for fn in (f, g, h):
-        da = DefiniteAssignment(fn.node).run()
+        da = DefiniteAssignment(_it(fn.node)).run()
         report.add("R1.7", fn.qual, "all locals bound before use", f"{fn.file}:{fn.node.lineno}", not da.reports,
                    detail="; ".join(f"{k} unbound" for k in da.reports))
     report.assumptions += ["sklearn.metrics.confusion_matrix and np.bincount are trusted to count",
